@@ -202,6 +202,11 @@ func kindValue(kind string) interface{} {
 		return "${UNSET_VAR_Q}"
 	case "odd-map":
 		return map[string]interface{}{"k": "", "": "v", "e": nil, "n": 3}
+	case "repeated-strings": // repeated entries in several positions (keyed lists collapse them)
+		return []interface{}{"A=0", "A=1", "B=x", "B=y", "A=2", "80:80", "80:80", "81:81", "81:81"}
+	case "repeated-maps":
+		return []interface{}{map[string]interface{}{"target": "/t", "source": "s1", "type": "volume"}, map[string]interface{}{"target": "/t", "source": "s2", "type": "volume"},
+			map[string]interface{}{"target": "/u", "source": "s1", "type": "volume"}, map[string]interface{}{"target": "/u", "source": "s2", "type": "volume"}}
 	case "reset-tag":
 		return rawYAML("!reset null")
 	case "override-tag":
@@ -775,6 +780,33 @@ func C01(c *core.Ctx) {
 				}
 			}
 			c.Set("full_example_nodes", len(paths))
+		}
+	}
+	// ---- the documents of the other properties' tables (valid models and minimal violations of each consistency rule,
+	// every custom marshaller's model): combinations of attributes the single-path sweep does not reach; totality only
+	for _, tb := range []struct{ module, cfg, variable, field string }{
+		{"MC_Consistency", "SPECIFICATION Spec\nINVARIANTS Exactly\nCHECK_DEADLOCK FALSE\n", "cs", "doc"},
+		{"MC_RenderDocs", "SPECIFICATION RSpec\nCHECK_DEADLOCK FALSE\n", "doc", "d"},
+	} {
+		tdump := filepath.Join(c.Work, "tb-"+tb.module)
+		rt, err := c.RunTLC(core.TLCOpts{Module: tb.module, CfgText: tb.cfg, Dump: tdump, Workers: 4, Timeout: 20 * time.Minute, Name: "tb-" + tb.module})
+		if err != nil {
+			c.Inconclusive(tb.module + " failed: " + err.Error())
+			return
+		}
+		c.AddTLC(rt)
+		_, err = core.ReadDump(tdump+".dump", func(vars map[string]interface{}) error {
+			m := asMap(vars[tb.variable])
+			if _, seed := m["seed"]; seed {
+				return nil
+			}
+			doc := yamlOf(m[tb.field])
+			cases = append(cases, c01Case{ID: len(cases), Family: "tables", Desc: tb.module + ": " + doc, Expect: "either", Files: map[string]string{"compose.yaml": doc, "sec": "s", "cfg": "c", "s": "s", "c": "c"}, Main: []string{"compose.yaml"}})
+			return nil
+		})
+		if err != nil {
+			c.Inconclusive(tb.module + " dump: " + err.Error())
+			return
 		}
 	}
 	// ---- seeded byte mutations of the generated documents (totality only)
